@@ -14,6 +14,8 @@ Ltac reify_b w c :=
   | truthy (bit_at w ?i) => let h := nat_of i in constr:(BBit h)
   | (chain (substring w ?h1 ?l1) (bit_at w ?i) 1 =? ?k) =>
       let a := nat_of h1 in let b := nat_of l1 in let j := nat_of i in constr:(BChain a b j j k)
+  | (chain (bit_at w ?i) (substring w ?h2 ?l2) ?n =? ?k) =>
+      let j := nat_of i in let c := nat_of h2 in let d := nat_of l2 in constr:(BChain j j c d k)
   | (chain (substring w ?h1 ?l1) (substring w ?h2 ?l2) ?n =? ?k) =>
       let a := nat_of h1 in let b := nat_of l1 in let c := nat_of h2 in let d := nat_of l2 in constr:(BChain a b c d k)
   | negb ?a => let x := reify_b w a in constr:(BNot x)
